@@ -256,4 +256,33 @@ MUT={
 	if err != nil && len(bytes) == 0 {
 		return bytes, err
 	}""")],
+ 'c10-pickconn-nolock': [(G,"""func (gme *GCPMultiEndpoint) pickConn(ctx context.Context) *grpc.ClientConn {
+	gme.mu.RLock()
+	defer gme.mu.RUnlock()""","""func (gme *GCPMultiEndpoint) pickConn(ctx context.Context) *grpc.ClientConn {""")],
+ 'c10-streams-nonatomic': [(B,"""func (ref *subConnRef) streamsIncr() {
+	atomic.AddInt32(&ref.streamsCnt, 1)""","""func (ref *subConnRef) streamsIncr() {
+	ref.streamsCnt++""")],
+ 'c10-me-current-nolock': [(M,"""func (me *multiEndpoint) Current() string {
+	me.RLock()
+	defer me.RUnlock()
+	return me.current""","""func (me *multiEndpoint) Current() string {
+	return me.current""")],
+ 'c10-bind-nolock': [(B,"""	gb.mu.Lock()
+	defer gb.mu.Unlock()
+	if _, found := gb.scRefs[sc]; !found {""","""	if _, found := gb.scRefs[sc]; !found {""")],
+ 'c10-notify-nolock': [(G,"""	mc.gme.mu.RLock()
+	for _, me := range mc.gme.mes {
+		me.SetEndpointAvailability(mc.endpoint, state == connectivity.Ready)
+	}
+	mc.gme.mu.RUnlock()""","""	for _, me := range mc.gme.mes {
+		me.SetEndpointAvailability(mc.endpoint, state == connectivity.Ready)
+	}""")],
+ 'c10-rr-state-nolock': [(B,"""	gb.mu.RLock()
+	if state := gb.scStates[scRef.subConn]; state == connectivity.Ready {
+		gb.mu.RUnlock()
+		return scRef
+	} else {""","""	if state := gb.scStates[scRef.subConn]; state == connectivity.Ready {
+		return scRef
+	} else {
+		gb.mu.RLock()""")],
 }
